@@ -12,18 +12,15 @@ package snapshot
 // Oracles are written from the documentation of the types (snapshot.go) and the property text.
 
 import (
+	"os"
+	"path/filepath"
+
 	"github.com/hashicorp/raft"
 )
 
 // ---------------------------------------------------------------- the reference description
 
-// vSnap describes one snapshot of the reference catalog.
-type vSnap struct {
-	id          string
-	full        bool
-	term, index uint64
-	wals        int
-}
+// (vSnap, the description of one snapshot, lives in fsmodel.go)
 
 // vOlder is the documented order: by (Term, Index, ID).
 func vOlder(a, b vSnap) bool {
@@ -44,18 +41,6 @@ func vIDs(m []vSnap) []string {
 	return out
 }
 
-func vSameStrings(a, b []string) bool {
-	if len(a) != len(b) {
-		return false
-	}
-	for i := range a {
-		if a[i] != b[i] {
-			return false
-		}
-	}
-	return true
-}
-
 func vFilePaths(fs []*ChecksummedFile) []string {
 	out := make([]string, len(fs))
 	for i, f := range fs {
@@ -66,7 +51,7 @@ func vFilePaths(fs []*ChecksummedFile) []string {
 
 // ---------------------------------------------------------------- (a) order
 
-var vOrderIDs = [][3]string{{"a", "b", "b0"}, {"b0", "b", "a"}, {"a", "a", "b"}, {"b", "a", "a"}, {"a", "a", "a"}, {"b", "a", "b0"}}
+var vOrderIDs = [][3]string{{"a", "b", "b0"}, {"b", "a", "a"}, {"a", "a", "a"}, {"b0", "b", "a"}, {"a", "a", "b"}, {"b", "a", "b0"}}
 
 func vMkSnap(id string, term, index uint64) *Snapshot {
 	return &Snapshot{id: id, raftMeta: &raft.SnapshotMeta{ID: id, Term: term, Index: index}}
@@ -76,7 +61,7 @@ func vMkSnap(id string, term, index uint64) *Snapshot {
 // documented (Term, Index, ID) order, and Equal is its equivalence.
 func VerifC09Order() {
 	verifPanicsAreViolations()
-	ids := vOrderIDs[verifChoice("ids", len(vOrderIDs))]
+	ids := vOrderIDs[vChoice("ids", 3+3*verifTier())]
 	var sp [3]vSnap
 	var sn [3]*Snapshot
 	for i := range sp {
@@ -96,7 +81,9 @@ func VerifC09Order() {
 			if i == j {
 				continue
 			}
-			want := vOlder(sp[i], sp[j])
+			// the documented (Term, Index, ID) order, written without branches
+			want := verifOr(sp[i].term < sp[j].term, verifAnd(sp[i].term == sp[j].term,
+				verifOr(sp[i].index < sp[j].index, verifAnd(sp[i].index == sp[j].index, sp[i].id < sp[j].id))))
 			verifAssert("C09-less-is-term-index-id-order", lt[i][j] == want)
 			verifAssert("C09-less-asymmetric", !verifAnd(lt[i][j], lt[j][i]))
 			if sp[i].id != sp[j].id {
@@ -134,8 +121,6 @@ func vBuildSet(dir string, m []vSnap) SnapshotSet {
 	}
 	return SnapshotSet{dir: dir, items: items}
 }
-
-func vWALName(i int) string { return "0000000" + string(rune('1'+i)) + walfileSuffix }
 
 // vExpectFiles: "nearest full at or before it, then every WAL of that full and of each later
 // snapshot up to it, in order"; ok == false iff no full snapshot precedes it.
@@ -256,12 +241,12 @@ var vAlgebraIDs = []string{"s1", "s2", "s3", "s4"}
 
 // vShape picks n snapshots (ids in age order), each full or incremental with 0..2 WAL files.
 func vShape(maxN int) []vSnap {
-	n := verifChoice("n", maxN+1)
+	n := vChoice("n", maxN+1)
 	m := make([]vSnap, n)
 	for i := range m {
 		m[i] = vSnap{id: vAlgebraIDs[i], term: 1, index: uint64(10 * (i + 1))}
-		m[i].full = verifChoice(verifName("full", i), 2) == 1
-		m[i].wals = verifChoice(verifName("wals", i), 3)
+		m[i].full = vChoice(verifName("full", i), 2) == 1
+		m[i].wals = vChoice(verifName("wals", i), 3)
 	}
 	return m
 }
@@ -269,9 +254,128 @@ func vShape(maxN int) []vSnap {
 // VerifC09Algebra: every query over every shape of at most 4 snapshots.
 func VerifC09Algebra() {
 	verifPanicsAreViolations()
-	m := vShape(4)
+	m := vShape(3 + verifTier())
 	ss := vBuildSet("/vc09", m)
 	vCheckAlgebra(ss, "/vc09", m, "nope")
+}
+
+// ---------------------------------------------------------------- (a) the real Scan
+
+var vDirNames = []string{"d1", "d2", "d3", "d4"}
+
+// type patterns in directory (= name) order; F = full, I = incremental
+var vTypePatterns = [][]string{
+	{""},
+	{"F", "I"},
+	{"FI", "IF", "FF", "II"},
+	{"FII", "IFI", "IIF", "FIF", "FFI", "III"},
+	{"FIIF", "IFIF", "FIFI", "IIFI", "FFII", "IFFI"},
+}
+
+// vScanWorld writes a store directory with n snapshots whose age (term, index) is symbolic and
+// independent of the order of their directory names, plus what a running store leaves around:
+// the temporary directory of a snapshot that is being written, flag files.
+func vScanWorld(dir string, maxN int) []vSnap {
+	n := vChoice("n", maxN+1)
+	pats := vTypePatterns[n]
+	if verifTier() == 0 && n == 3 {
+		pats = pats[:2] // the other shapes of three: thorough tier (and VerifC09Algebra)
+	}
+	pat := pats[vChoice("types", len(pats))]
+	manyWALs := 1
+	if verifTier() == 1 || n < 3 {
+		manyWALs = vChoice("manyWALs", 2)
+	}
+	m := make([]vSnap, n)
+	for i := range m {
+		m[i] = vSnap{id: vDirNames[i], term: 1, index: verifU64(verifName("index", i))}
+		if verifTier() == 1 || n < 3 {
+			m[i].term = verifU64(verifName("term", i)) // (quick tier, three snapshots: same term)
+		}
+		m[i].full = pat[i] == 'F'
+		if m[i].full {
+			m[i].wals = manyWALs
+		} else {
+			m[i].wals = 1 + manyWALs
+		}
+		vPutSnapshot(dir, m[i])
+	}
+	// leftovers
+	tmp := filepath.Join(dir, "d0"+tmpSuffix)
+	vMust(os.MkdirAll(tmp, 0o755))
+	vMust(os.WriteFile(filepath.Join(tmp, dbfileName), vSQLiteHdr[:40], 0o644))
+	vMust(os.WriteFile(filepath.Join(dir, fullNeededFile), nil, 0o644))
+	return m
+}
+
+// VerifC09Scan: the catalog lists exactly the complete snapshot directories, oldest first by
+// (term, index, id), classifies them by their content, and every query on the result agrees
+// with the reference.
+func VerifC09Scan() {
+	verifPanicsAreViolations()
+	dir := vNewRoot("vc09")
+	defer vDropRoot(dir)
+	m := vScanWorld(dir, 3+verifTier())
+
+	ss, err := (&SnapshotCatalog{}).Scan(dir)
+	verifAssert("C09-scan-ok-on-well-formed-store", err == nil)
+	verifAssert("C09-scan-lists-exactly-the-complete-snapshots", ss.Len() == len(m))
+	// the result is a permutation of the reference, classified as written ...
+	sorted := make([]vSnap, 0, len(m))
+	for _, it := range ss.items {
+		k := -1
+		for i := range m {
+			if m[i].id == it.id {
+				k = i
+			}
+		}
+		verifAssert("C09-scan-lists-only-snapshot-directories", k >= 0)
+		for _, prev := range sorted {
+			verifAssert("C09-scan-lists-each-once", prev.id != it.id)
+		}
+		sp := m[k]
+		verifAssert("C09-scan-type-from-content", (it.typ == Full) == sp.full && (it.dbFile != nil) == sp.full)
+		verifAssert("C09-scan-wal-count", len(it.walFiles) == sp.wals)
+		verifAssert("C09-scan-meta", it.raftMeta != nil && it.raftMeta.Term == sp.term && it.raftMeta.Index == sp.index)
+		sorted = append(sorted, sp)
+	}
+	// ... and ordered oldest first
+	for i := 1; i < len(sorted); i++ {
+		verifAssert("C09-scan-sorted-oldest-first", vOlder(sorted[i-1], sorted[i]))
+		if sorted[i-1].id > sorted[i].id {
+			verifReach("scan-reordered")
+		}
+	}
+	if len(sorted) == 3 {
+		verifReach("scan-three")
+	}
+	vCheckAlgebra(ss, dir, sorted, "d0"+tmpSuffix)
+}
+
+// VerifC09ScanBroken: a directory that is not a complete snapshot (and is not a temporary one)
+// is reported, never listed.
+func VerifC09ScanBroken() {
+	verifPanicsAreViolations()
+	dir := vNewRoot("vc09")
+	defer vDropRoot(dir)
+	vPutSnapshot(dir, vSnap{id: "d1", full: true, term: 1, index: 5})
+	bad := filepath.Join(dir, "d2")
+	vMust(os.MkdirAll(bad, 0o755))
+	switch vChoice("broken", 4) {
+	case 0: // no meta.json
+		vWriteData(filepath.Join(bad, dbfileName), vSQLiteHdr)
+	case 1: // no data file
+		vMust(writeMeta(bad, &raft.SnapshotMeta{Version: 1, ID: "d2", Index: 9, Term: 1}))
+	case 2: // data file without its checksum record
+		vMust(writeMeta(bad, &raft.SnapshotMeta{Version: 1, ID: "d2", Index: 9, Term: 1}))
+		vMust(os.WriteFile(filepath.Join(bad, vWALName(0)), vWALHdr, 0o644))
+	case 3: // data file that is not a database
+		vMust(writeMeta(bad, &raft.SnapshotMeta{Version: 1, ID: "d2", Index: 9, Term: 1}))
+		vWriteData(filepath.Join(bad, dbfileName), []byte("not a database, not a database"))
+	}
+	ss, err := (&SnapshotCatalog{}).Scan(dir)
+	verifReach("scan-broken")
+	verifAssert("C09-scan-reports-incomplete-directory", err != nil && ss.Len() == 0)
 }
 
 // VerifC09Twin: claims an incremental resolves without its full's WAL files - must be violated.
